@@ -392,12 +392,13 @@ func init() {
 			"(D-write-last) once the directive writers (journal.Print, the beancount transcoder) have started to write, the only errors they return come from writing: no validation can fail after the first byte of the report;",
 			"(I-locks) no function of a registry calls, while it holds the registry's mutex, a function that acquires it again (sync.RWMutex is not reentrant: the command would hang);",
 			"(D-flag-bound) an integer flag that reaches a sink linear in its value (StringFixed places, strings.Repeat, make) is compared with a constant upper bound on a branch that fails the command;",
+			"(K-columns-agree) under every combination of a report renderer's options no row receives more cells than the table was created with columns for — constant cells against constant group sizes, per-iteration cells against group sizes that are not constants (the text renderer indexes its column widths by the cell's position);",
 		},
 		NotDecided: []string{
 			"implicit panics in general (index and slice bounds that do not come from a flag or from the input text, nil maps, type assertions);",
 			"memory bounds other than the include cycle; hangs other than the channel protocol of C19.",
 		},
-		Rules: []Rule{RuleCPanic, RuleDDiv, RuleDNilFlag, RuleDFlagInt, RuleDMakeCap, RuleDRecursion, RuleKNestedLimit, RuleKChan, RuleKErrors, RuleDOutAfter, RuleDWriteLast, RuleELoops, RuleILocks, RuleDFlagBound},
+		Rules: []Rule{RuleCPanic, RuleDDiv, RuleDNilFlag, RuleDFlagInt, RuleDMakeCap, RuleDRecursion, RuleKNestedLimit, RuleKChan, RuleKErrors, RuleDOutAfter, RuleDWriteLast, RuleELoops, RuleILocks, RuleDFlagBound, RuleKColumnsAgree},
 	})
 }
 
